@@ -76,7 +76,13 @@ func (s *Stream) Recv(msg any) error {
 			return Errorf("Message is too big. Max allowed size is %d bytes", s.max)
 		}
 		if read >= need {
-			return UnmarshalTTLV(buf[:need], msg)
+			err := UnmarshalTTLV(buf[:need], msg)
+			if err != nil && !IsErrEncoding(err) {
+				// The message has been completely received: whatever makes its decoding
+				// fail is an encoding error, not an I/O failure of the stream.
+				err = Errorf("%w", err)
+			}
+			return err
 		}
 		if err != nil {
 			return err
